@@ -103,20 +103,47 @@ ROOTOF = z3.Function("path_splitext_root", STR, STR)
 # ------------------------------------------------------------------------------------------------
 
 
-def _mk(name, bases):
-    return type(name, bases, {"__module__": __name__})
+class FaultMarker(Exception):
+    """Common base of every injected failure (key of the `raises` tables); adds nothing a handler could name."""
 
 
-# three disjoint exception classes (a handler for one must not be credited with catching the others); they share the
-# display name "Fault" so that obligation names do not depend on which one a path injected.
-FaultPlain = _mk("Fault", (Exception,))
-FaultOS = _mk("Fault", (OSError,))
-FaultType = _mk("Fault", (TypeError,))
+def _mk(bases):
+    return type("Fault", bases, {"__module__": __name__})
+
+
+# disjoint exception classes (a handler for one must not be credited with catching the others); they share the display
+# name "Fault" so that obligation names do not depend on which one a path injected.
+FaultPlain = _mk((FaultMarker,))
+FaultOS = _mk((FaultMarker, OSError))
+FaultType = _mk((FaultMarker, TypeError))
 FAULTS = (FaultPlain, FaultOS, FaultType)
+_DYN = {}
+
+
+def fault_class_for(C):
+    """A fault class caught by `except C` (and by nothing narrower)."""
+    for F in FAULTS:
+        if issubclass(F, C):
+            return F
+    if C not in _DYN:
+        _DYN[C] = _mk((FaultMarker, C))
+    return _DYN[C]
+
+
+def fault_classes_for_handlers(handler_classes):
+    """The classes a failing call is forked over: the three standard ones plus one per exception class named in an
+    `except` clause of the code under verification (so every handler is actually taken on some path)."""
+    out = list(FAULTS)
+    for C in handler_classes:
+        if isinstance(C, type) and issubclass(C, BaseException):
+            F = fault_class_for(C) if issubclass(C, Exception) or C is BaseException else None
+            if F is not None and F not in out:
+                out.append(F)
+    return tuple(out)
 
 
 def is_fault(E):
-    return isinstance(E, type) and issubclass(E, FAULTS)
+    return isinstance(E, type) and issubclass(E, FaultMarker)
 
 
 class World:
@@ -131,6 +158,7 @@ class World:
         self.handlers_in_scope = True
         self.faults = []      # sites at which a fault was injected on this path (at most one)
         self.refusals = []    # sites that raised because a value cannot be serialised
+        self.fault_class = None
         self.sites = []       # every may-fault site passed, in order
         self.effects = 0      # number of state-changing operations performed
         self.fs = GhostFS(self)
@@ -156,8 +184,10 @@ def raise_fault(ctx, site, why="fault", injected=True):
     (w.faults if injected else w.refusals).append(site)
     cls = w.fault_classes if w.handlers_in_scope else w.fault_classes[:1]
     for c in cls[:-1]:
-        if ctx.branch(ctx.fresh(f"fault_class_is_{c.__mro__[1].__name__}", "bool").t):
+        if ctx.branch(ctx.fresh("fault_class_is_" + ("Exception" if c is FaultPlain else c.__mro__[2].__name__), "bool").t):
+            w.fault_class = c
             raise RaiseSig(c(f"{why} at {site}"))
+    w.fault_class = cls[-1]
     raise RaiseSig(cls[-1](f"{why} at {site}"))
 
 
@@ -461,6 +491,16 @@ class GhostGroup:
     def create_array(self, name=None, shape=None, dtype=None, compressors=None, data=None, **kw):
         ctx = self.w.ctx
         may_fault(ctx, "Group.create_array")
+        try:
+            import numpy as np
+
+            unstorable = dtype is not None and not contains_sym(dtype) and np.dtype(dtype).kind == "O"
+        except TypeError:
+            unstorable = False
+        if unstorable:
+            # zarr v3: "Zarr data type resolution from object failed" - nothing is created
+            self.w.refusals.append("Group.create_array(dtype=object)")
+            raise RaiseSig(ValueError("Zarr data type resolution from object failed"))
         n = sterm(name)
         self.R = z3.Store(self.R, n, z3.BoolVal(True))
         self.touch()
